@@ -161,6 +161,19 @@ size_t xvu_cstr_len(const char *s)
     return n;
 }
 size_t xvu_strlen(const char *s) { return xvu_cstr_len(s); }
+/* strcpy into a 64-byte field (req.get_attr_req.attr_name of xcmc_attr_get, selected with -DXVU_STRCPY64): same OBLIGATION (room for
+ * the string and its NUL), then an EXACT copy written byte by byte at CONSTANT offsets -- the destination is a field of a 37 904-byte
+ * struct on the stack, and an update at a symbolic offset costs one array update of the whole object. */
+char *xvu_strcpy64(char *dst, const char *src)
+{
+    size_t n = xvu_cstr_len(src);
+    __CPROVER_assert(__CPROVER_w_ok(dst, n + 1) && n < 64, "strcpy: destination (64 bytes) has room for the string and its NUL");
+    __CPROVER_assume(n < 64);
+#define XVU_C1(k) if ((k) <= n) dst[k] = src[k]
+#define XVU_C8(k) XVU_C1(k); XVU_C1((k) + 1); XVU_C1((k) + 2); XVU_C1((k) + 3); XVU_C1((k) + 4); XVU_C1((k) + 5); XVU_C1((k) + 6); XVU_C1((k) + 7)
+    XVU_C8(0); XVU_C8(8); XVU_C8(16); XVU_C8(24); XVU_C8(32); XVU_C8(40); XVU_C8(48); XVU_C8(56);
+    return dst;
+}
 /* strncmp(a, "ctl-", 4): exact, unrolled (a is a C string: comparison stops at its NUL) */
 int xvu_strncmp4(const char *a, const char *b, size_t n)
 {
